@@ -961,8 +961,11 @@ class ParquetDataTableAccessor(
         """Returns the dictionary with field name and numpy dtype instance for
         each field.
         """
+        # The data type is taken from the numpy ndarray of the column, i.e. it
+        # is an instance of numpy.dtype as for the other data table accessors,
+        # and does not require the pandas package.
         fname_to_dtype_dict = dict([
-            (fname, data.field(fname).type.to_pandas_dtype())
+            (fname, self.get_column(data, fname).dtype)
             for fname in data.column_names
         ])
         return fname_to_dtype_dict
